@@ -43,9 +43,10 @@ Spelling(tree, n, j) ==
                     ELSE IF j = 1 /\ ~InGrammar(TokKinds(toks), IF tree.t = "Expression" THEN "eval" ELSE "exec") THEN "recogniser rejects a spelled tree"
                     ELSE "ok"]
 
-(* ---- rejection cases: one token item of a spelling deleted, inserted or replaced; the       *)
-(* indentation of one line respelled with a tab for eight blanks (or back); a backslash at the  *)
-(* end of the file.  The verdict is PyLex's and the recogniser's.                              *)
+(* ---- mutated texts: one token item of a spelling deleted, inserted or replaced; the          *)
+(* indentation of one line respelled with a tab for eight blanks (or back) or replaced by other  *)
+(* white space; a backslash at the end of the file.  PyLex says what the token stream of the     *)
+(* mutated text is (or that there is none), the recogniser whether it can be a program.          *)
 InsertToks == << TK("NAME", "z"), TK("NUMBER", "1"), TK("STRING", "'s'") >>
               \o [i \in 1..54 |-> LET x == << "(", ")", "[", "]", "{", "}", ",", ":", ";", ".", "=", "==", "+", "-", "not", "and", "or", "if", "else",
                                               "for", "in", "is", "lambda", "yield", "return", "pass", "def", "class", "import", "from", "as", "with",
@@ -60,7 +61,8 @@ Mutant(lines, mode, h) ==
       at   == Pick(Fork(h, 2), idx)
       \* lines whose indentation starts with eight blanks or a tab: the other one reaches the same column
       retabs == { x \in 1..Len(lines) : lines[x] # <<>> /\ (lines[x][1].k = "tab" \/ (lines[x][1].k = "ws" /\ lines[x][1].n = 8)) }
-      op0  == Pick(Fork(h, 3), <<"delete", "delete", "delete", "insert", "insert", "insert", "replace", "replace", "retab", "retab", "bslash_eof">>)
+      op0  == Pick(Fork(h, 3), <<"delete", "delete", "delete", "insert", "insert", "insert", "replace", "replace", "retab", "retab", "bslash_eof",
+                                  "reindent", "reindent", "reindent">>)
       op   == IF op0 = "retab" /\ retabs = {} THEN "delete" ELSE op0
       new  == Pick(Fork(h, 4), InsertToks)
       sp   == <<WsItem(1)>>
@@ -68,6 +70,10 @@ Mutant(lines, mode, h) ==
       line2 == IF op = "delete" THEN (SubSeq(line, 1, at - 1) \o sp) \o SubSeq(line, at + 1, Len(line))
                ELSE IF op = "insert" THEN ((SubSeq(line, 1, at - 1) \o sp) \o <<TokItem(new)>> \o sp) \o SubSeq(line, at, Len(line))
                ELSE IF op = "replace" THEN ((SubSeq(line, 1, at - 1) \o sp) \o <<TokItem(new)>> \o sp) \o SubSeq(line, at + 1, Len(line))
+               ELSE IF op = "reindent" THEN   \* another leading white space for the line
+                    Pick(Fork(h, 6), << <<>>, <<WsItem(1)>>, <<WsItem(2)>>, <<WsItem(4)>>, <<WsItem(4)>>, <<WsItem(8)>>, <<TabItem>>, <<TabItem>>,
+                                        <<WsItem(4), TabItem>>, <<TabItem, WsItem(4)>>, <<WsItem(8), WsItem(4)>>, <<TabItem, TabItem>>, <<WsItem(6)>> >>)
+                    \o SubSeq(line, idx[1], Len(line))
                ELSE line
       lines2 == IF op = "retab" THEN [lines EXCEPT ![rl] = <<IF lines[rl][1].k = "tab" THEN WsItem(8) ELSE TabItem>> \o Tail(lines[rl])]
                 ELSE IF op = "bslash_eof" THEN [lines EXCEPT ![Len(lines)] = (@ \o sp) \o <<BslashItem>>]
@@ -75,7 +81,8 @@ Mutant(lines, mode, h) ==
       lx   == PLLex(lines2)
       verdict == IF ~lx.nest THEN "reject:brackets" ELSE IF lx.err # "" THEN "reject:" \o lx.err
                  ELSE IF ~InGrammar(lx.out, mode) THEN "reject:grammar" ELSE "unknown"
-  IN [op |-> op, tok |-> IF op = "delete" THEN line[at].s ELSE IF op \in {"retab", "bslash_eof"} THEN "" ELSE new.s, text |-> LinesText(lines2), verdict |-> verdict,
+  IN [op |-> op, tok |-> IF op = "delete" THEN line[at].s ELSE IF op \in {"retab", "bslash_eof", "reindent"} THEN "" ELSE new.s, text |-> LinesText(lines2), verdict |-> verdict,
+      toks |-> IF lx.nest /\ lx.err = "" THEN lx.out ELSE <<>>,      \* what the lexer must produce, whatever the grammar says
       star |-> \E k \in 1..Len(lx.out) : lx.out[k] \in {"*", "**", "@", "->"}]
 
 Case(u) ==
